@@ -221,7 +221,7 @@ Variable ops : path -> list value -> list value -> list opcode.
 Variables T1 T2 : value.
 Variable q : path.
 Notation td := (to_delta conv bidir always ops T1 T2).
-Notation GoodD := (GoodD conv bidir).
+Notation GoodD := (GoodD0 conv bidir).
 
 Lemma strip_idx k : skipn (length q) (npath (snoc q (PIdx k))) = [PKey (ik k)].
 Proof. unfold snoc. rewrite skipn_npath. reflexivity. Qed.
